@@ -112,3 +112,52 @@ theorem firstEndDfa_prefix_free (s e u v : List Nat) (hu : (firstEndDfa s e).acc
     simp [firstEndDfa] at hv
 
 end ParolModel
+
+namespace ParolModel
+
+theorem crlfGuard_respects {σ : Type} (A : Aut σ) (hA : A.Respects) : (crlfGuard A).Respects := by
+  intro st x y h
+  match st with
+  | none => rfl
+  | some (q, pend) =>
+    have h10 : (x = 10 ↔ y = 10) := by
+      have a := h 10 (by simp [crlfGuard]); have b := h 11 (by simp [crlfGuard]); omega
+    have h13 : (x = 13 ↔ y = 13) := by
+      have a := h 13 (by simp [crlfGuard]); have b := h 14 (by simp [crlfGuard]); omega
+    have hs : A.step q x = A.step q y := hA q x y (h.mono (by intro c hc; simp [crlfGuard, hc]))
+    cases pend
+    · have : (x == 13) = (y == 13) := by rw [Bool.eq_iff_iff]; simp only [beq_iff_eq]; exact h13
+      simp only [crlfGuard, hs, this]
+    · simp only [crlfGuard, hs]
+      by_cases hx : x = 10
+      · simp [hx, h10.mp hx]
+      · have hy : ¬ y = 10 := fun hy => hx (h10.mpr hy)
+        simp [hx, hy]
+
+theorem crlfGuard_dead {σ : Type} (A : Aut σ) (w : List Nat) : (crlfGuard A).accepts none w = false := by
+  induction w with
+  | nil => rfl
+  | cons x w ih => simpa [Aut.accepts, Aut.run, crlfGuard] using ih
+
+theorem crlfGuard_accepts {σ : Type} (A : Aut σ) : ∀ (w : List Nat) (q : σ) (pend : Bool),
+    (crlfGuard A).accepts (some (q, pend)) w = (crOkP pend w && A.accepts q w) := by
+  intro w
+  induction w with
+  | nil => intro q pend; simp [Aut.accepts, Aut.run, crlfGuard, crOkP]
+  | cons x w ih =>
+    intro q pend
+    cases pend
+    · have := ih (A.step q x) (x == 13)
+      simp only [Aut.accepts, Aut.run, List.foldl_cons, crOkP] at this ⊢
+      simpa [crlfGuard] using this
+    · by_cases hx : x = 10
+      · have := ih (A.step q x) false
+        simp only [Aut.accepts, Aut.run, List.foldl_cons, crOkP] at this ⊢
+        simpa [crlfGuard, hx] using this
+      · have hd := crlfGuard_dead A w
+        simp only [Aut.accepts, Aut.run, crlfGuard] at hd
+        have hb : (x == 10) = false := by simpa using hx
+        simp only [Aut.accepts, Aut.run, List.foldl_cons, crOkP, hb, Bool.false_and]
+        simpa [crlfGuard, hx] using hd
+
+end ParolModel
